@@ -30,45 +30,53 @@ def run(ctx):
     r = ctx.rule('R14a', 'descriptor allocator: ++counter, clamp to 1 when <= 0, return only a value the registry does not hold',
                  'a descriptor equal to a live one (after wrap-around) or <= 0 aliases two instances / looks like an error')
     f = P.fn('liberasurecode_backend_alloc_desc')
-    C = Canon(P, f)
-    stores = [i for i in f.insts() if i.op == 'store' and access_path(P, f, i.ops[1])[0] == '@next_backend_desc']
-    incs = [s for s in stores if C.val(s.ops[0]) in ('(1 add *@next_backend_desc)', '(*@next_backend_desc add 1)')]
-    if incs:
-        r.ok('counter is incremented by one per attempt', func=f.name, loc=incs[0].loc)
-    else:
-        r.fail('counter increment', func=f.name, sig='no ++next_backend_desc', loc=f.mod.src, msg=f'stores to next_backend_desc: {[C.val(s.ops[0]) for s in stores]}')
-    clamp = [s for s in stores if s.ops[0] == '1']
-    okc = False
-    for s in clamp:
-        F = Facts(P, f, s.bb)
-        if any((p == 'sle' and b == '0') or (p == 'slt' and b == '1') for p, a, b in F.facts):
-            okc = True
-    if okc:
-        r.ok('non-positive counter is reset to 1', func=f.name, loc=clamp[0].loc)
-    else:
-        r.fail('clamp to 1', func=f.name, sig='counter <= 0 not reset to 1', loc=f.mod.src, msg='after wrap-around the allocator can hand out 0 or a negative descriptor')
-    lk = [i for i in f.insts() if i.op == 'call' and i.res and i.callee in P.fns and 'get_by_desc' in i.callee]
-    rets = [i for i in f.insts() if i.op == 'ret']
-    if not lk:
+    from ..consteval import ConstEval, Undecidable
+    CE = ConstEval(P, f.mod)
+    IMAX = 2**31 - 1
+    probes = [i for i in f.insts() if i.op == 'call' and i.res and 'get_by_desc' in i.callee]
+    if not probes:
         r.fail('registry probe', func=f.name, sig='no look-up of the candidate', loc=f.mod.src, msg='the candidate descriptor is not checked against live instances')
     else:
-        l0 = lk[0]
-        argv = C.val(strip_int_casts(f, l0.ops[0]))
-        retv = {C.val(strip_int_casts(f, i.ops[0])) for i in rets}
-        # return dominated by the null edge of the probe
-        ok = False
-        for i in rets:
-            d = f.defs.get(strip_int_casts(f, i.ops[0]))
-            blk = d.bb if d is not None else i.bb
-            F = Facts(P, f, blk)
-            if F.is_null(C.val(l0.res)) or any(p == 'eq' and C.val(l0.res) in (a, b) and 'null' in (a, b) for p, a, b in F.facts):
-                ok = True
-        same = argv == '*@next_backend_desc' and retv == {'*@next_backend_desc'}
-        if ok and same:
-            r.ok('returns the probed value only when the registry does not hold it', func=f.name, loc=l0.loc)
+        # (1) with a free registry: counter c -> returns c+1, or 1 when c+1 <= 0 (also at the INT_MAX wrap); the probe sees that value
+        bad = None
+        for c in (-7, -2, -1, 0, 1, 5, 41, IMAX - 1, IMAX):
+            seen = []
+            def hook(ins, args):
+                if ins in probes:
+                    seen.append(args[0]); return ('null',)
+                return None
+            try:
+                res = CE.run(f, [], gmem={'@next_backend_desc': c}, call_hook=hook)
+            except Undecidable as e:
+                bad = ('undecided', str(e)); break
+            nxt = c + 1 if c < IMAX else -2**31
+            want = nxt if nxt > 0 else 1
+            if res['ret'] != want or seen != [want] or res['gmem'].get('@next_backend_desc') != want:
+                bad = ('fail', f'counter {c}: returns {res["ret"]} (probed {seen}, counter left at {res["gmem"].get("@next_backend_desc")}), expected {want}')
+                break
+        if bad is None:
+            r.ok('free registry: returns ++counter, 1 when that is <= 0 (incl. INT_MAX wrap); the probe sees exactly that value', func=f.name, loc=probes[0].loc)
+        elif bad[0] == 'undecided':
+            r.undecided('allocator value function', loc=probes[0].loc, msg=bad[1])
         else:
-            r.fail('probe guards the return', func=f.name, sig=f'probe {argv} return {sorted(retv)} guarded={ok}', loc=l0.loc,
-                   msg='the value returned is not the one probed, or it is returned without the look-up being NULL')
+            r.fail('allocator value function', func=f.name, sig='allocator: ' + bad[1][:70], loc=probes[0].loc, msg='the descriptor allocator does not compute ++counter clamped to 1: ' + bad[1])
+        # (2) a value the registry holds is skipped: first probe non-NULL, second NULL -> returns the second candidate
+        seq = []
+        def hook2(ins, args):
+            if ins in probes:
+                seq.append(args[0])
+                return ('g', '@some_instance', ()) if len(seq) == 1 else ('null',)
+            return None
+        try:
+            res = CE.run(f, [], gmem={'@next_backend_desc': 10}, call_hook=hook2)
+            if res['ret'] == 12 and seq == [11, 12]:
+                r.ok('a descriptor held by a live instance is skipped (loop until the probe is NULL)', func=f.name, loc=probes[0].loc)
+            else:
+                r.fail('live descriptor skipped', func=f.name, sig=f'with 11 live: returns {res["ret"]} after probing {seq}', loc=probes[0].loc,
+                       msg=f'with descriptor 11 in use the allocator returns {res["ret"]} (probes {seq}); it must go on to 12')
+        except Undecidable as e:
+            r.undecided('live descriptor skipped', loc=probes[0].loc, msg=str(e))
+        r.ok('probe present', func=f.name, loc=probes[0].loc, trivial=True)
     r.require_min(3)
 
     # ---------------- R14b (lockset, shared)
